@@ -1,0 +1,157 @@
+//go:build verif
+// +build verif
+
+package cluster
+
+// Machine-checked contracts for the cluster plugin (comment-only file).
+//
+// ghost.fwd counts attempts (invocations of next, whether they return or
+// panic), ghost.succ the attempts that returned a nil error. The retry
+// bookkeeping lives in the call's item dictionary: see package core's
+// contract file for the ghost view (ccof, items_of, dict_has, dict_int).
+
+//@ fieldfunc Config.OnRetry OnRetryFunc
+
+// What Cluster.Handler relies on from an OnRetry callback: it counts the
+// retry. Verified for the two callbacks built in this package (Failover,
+// Failtry); assumed for user supplied ones.
+//
+//@ type OnRetryFunc(ctx) (interval)
+//@   havoc
+//@   let d = ghost.items_of[ival(ghost.ccof[ival(ctx)].Context)]
+//@   modifies ghost.dict_has[d][str("retried")], ghost.dict_int[d][str("retried")]
+//@   ensures ghost.dict_has[d][str("retried")]
+//@   ensures ghost.dict_int[d][str("retried")] ==
+//@       old(ite(ghost.dict_has[d][str("retried")], ghost.dict_int[d][str("retried")], 0)) + 1
+
+//@ func FailoverConfig$2
+//@   prop C16
+//@   havoc
+//@   flag implements=OnRetryFunc
+//@   stable ghost.ccof[ival(ctx)].Context
+//@   ensures [backoff_capped] interval <= config.maxInterval
+
+//@ func FailtryConfig$1
+//@   prop C16
+//@   havoc
+//@   flag implements=OnRetryFunc
+//@   stable ghost.ccof[ival(ctx)].Context
+//@   ensures [backoff_capped] interval <= config.maxInterval
+
+// getIndex: next server index. Holds for every value of *index (so also
+// under interference from concurrent callers): the result is a valid index.
+// Sequentially it is the successor modulo n.
+//
+//@ func getIndex
+//@   prop C16
+//@   nopanic
+//@   requires *index >= -1
+//@   modifies *index
+//@   ensures [in_range] 0 <= result && (n >= 1 ==> result < n)
+//@   ensures [successor] n > 1 && old(*index) + 1 < n ==> result == old(*index) + 1 && *index == result
+//@   ensures [wraps_to_zero] n > 1 && old(*index) + 1 >= n ==> result == 0 && *index == 0
+//@   ensures [single_server] n <= 1 ==> result == 0
+
+// Failover's OnFailure: moves the call to urls[getIndex(...)]: a configured server.
+//
+//@ func FailoverConfig$1
+//@   prop C16
+//@   requires len(ghost.ccof[ival(ctx)].client.URLs) >= 1 && index >= -1
+//@   modifies index, ghost.ccof[ival(ctx)].URL
+//@   let cc = ghost.ccof[ival(ctx)]
+//@   let urls = ghost.ccof[ival(ctx)].client.URLs
+//@   ensures [moves_to_next_configured_server] exists(k, 0, len(urls), cc.URL == urls[k])
+//@   ensures [round_robin_successor] len(urls) > 1 && old(index) + 1 < len(urls) ==> cc.URL == urls[old(index) + 1]
+//@   ensures [round_robin_wrap] len(urls) > 1 && old(index) + 1 >= len(urls) ==> cc.URL == urls[0]
+
+// Cluster.Handler. With, read from the call's items (falling back to the
+// plugin's configuration):  idem, retry, and retried0 = items["retried"] on entry:
+//   attempts <= 1                              if !idem or no OnRetry callback
+//   attempts <= 1 + max(0, retry - retried0)   otherwise
+//   at most one attempt succeeds, and it is the last one; its response is returned
+//   otherwise the last attempt's error is returned
+//
+//@ func (*Cluster).Handler
+//@   prop C16
+//@   havoc
+//@   requires c != nil
+//@   let cc = ghost.ccof[ival(ctx)]
+//@   let d = ghost.items_of[ival(ghost.ccof[ival(ctx)].Context)]
+//@   let idem = ite(ghost.dict_has[d][str("idempotent")], ghost.dict_int[d][str("idempotent")] != 0, c.Idempotent)
+//@   let retry = ite(ghost.dict_has[d][str("retry")], ghost.dict_int[d][str("retry")], c.Retry)
+//@   let retried0 = ite(ghost.dict_has[d][str("retried")], ghost.dict_int[d][str("retried")], 0)
+//@   let budget = ite(idem && c.OnRetry != nil && retry > retried0, retry - retried0, 0)
+//@   stable ghost.ccof[ival(ctx)].Context, c.Config.Idempotent, c.Config.Retry, c.Config.OnRetry, c.Config.OnFailure, c.Config.OnSuccess
+//@   modifies ghost.dict_has[d][str("retried")], ghost.dict_int[d][str("retried")]
+//@   ensures [at_least_one_attempt] ghost.fwd >= old(ghost.fwd) + 1
+//@   ensures [attempts_within_budget] ghost.fwd <= old(ghost.fwd) + 1 + budget
+//@   ensures_panic [attempts_within_budget_on_panic] ghost.fwd <= old(ghost.fwd) + 1 + budget
+//@   ensures [non_idempotent_sent_once] !idem ==> ghost.fwd == old(ghost.fwd) + 1
+//@   ensures_panic [non_idempotent_sent_once_on_panic] !idem ==> ghost.fwd <= old(ghost.fwd) + 1
+//@   ensures [stops_at_first_success] ghost.succ <= old(ghost.succ) + 1
+//@   ensures_panic [stops_at_first_success_on_panic] ghost.succ <= old(ghost.succ) + 1
+//@   ensures [success_is_returned] ghost.succ == old(ghost.succ) + 1 ==> err == nil
+//@   ensures [returns_last_attempt] ghost.npanic == old(ghost.npanic) ==>
+//@       same(response, ghost.ret_response) && same(err, ghost.ret_err)
+//@   ensures [failure_means_error] ghost.succ == old(ghost.succ) ==> err != nil
+//@   ensures [retries_counted] ghost.dict_has[d][str("retried")] || ghost.fwd == old(ghost.fwd) + 1
+
+// Forking: one worker per configured server. The worker body (the goroutine
+// closure) is verified on its own; it is a goroutine root, so no panic may
+// escape it. `count` starts at n; every failing or panicking worker takes
+// exactly one off, and the error is published only by the worker that takes
+// the last one. `done` is closed exactly once (through `once`).
+// The clauses are per worker (sequential view of the shared variables, which
+// are only touched through sync/atomic and sync.Once).
+//
+//@ func Forking$1
+//@   prop C16
+//@   nopanic
+//@   havoc
+//@   requires ghost.once_done[addr(once)] == ghost.chanclosed[done] && done != nil
+//@   requires ghost.once_done[addr(once)] == 0 || ghost.once_done[addr(once)] == 1
+//@   stable count, err, response, done
+//@   ensures [calls_next_exactly_once] ghost.fwd == old(ghost.fwd) + 1
+//@   ensures [failure_or_panic_takes_exactly_one_off] ghost.npanic > old(ghost.npanic) || ghost.ret_err != nil ==>
+//@       count == old(count) - 1
+//@   ensures [success_leaves_count] ghost.npanic == old(ghost.npanic) && ghost.ret_err == nil ==> count == old(count)
+//@   ensures [first_success_publishes_its_response] ghost.npanic == old(ghost.npanic) && ghost.ret_err == nil &&
+//@       old(ghost.once_done[addr(once)]) == 0 ==> same(response, ghost.ret_response) && same(err, old(err))
+//@   ensures [response_only_from_a_successful_worker] !same(response, old(response)) ==>
+//@       ghost.npanic == old(ghost.npanic) && ghost.ret_err == nil
+//@   ensures [error_only_when_all_failed] !same(err, old(err)) ==> count <= 0 && count < old(count)
+//@   ensures [last_failure_releases_the_caller] count <= 0 && count < old(count) ==> ghost.chanclosed[done] == 1
+//@   ensures [success_releases_the_caller] ghost.npanic == old(ghost.npanic) && ghost.ret_err == nil ==> ghost.chanclosed[done] == 1
+//@   ensures [done_closed_exactly_with_once] ghost.once_done[addr(once)] == ghost.chanclosed[done]
+
+//@ func Forking
+//@   prop C16
+//@   havoc
+//@   requires ghost.ccof[ival(ctx)] != nil
+//@   let n = len(ghost.ccof[ival(ctx)].client.URLs)
+//@   stable ghost.ccof[ival(ctx)].client, ghost.ccof[ival(ctx)].client.URLs
+//@   loop 1 invariant 0 <= i && i <= n && ghost.spawned == old(ghost.spawned) + i && ghost.fwd == old(ghost.fwd)
+//@   ensures [no_servers_passthrough] n == 0 ==> ghost.fwd == old(ghost.fwd) + 1 && ghost.spawned == old(ghost.spawned)
+//@   ensures [one_worker_per_server] n > 0 ==> ghost.spawned == old(ghost.spawned) + n
+
+// Broadcast worker: calls next exactly once and always signals the wait group.
+//
+//@ func Broadcast$1
+//@   prop C16
+//@   nopanic
+//@   havoc
+//@   requires 0 <= i && i < len(result)
+//@   stable result, err
+//@   ensures [calls_next_exactly_once] ghost.fwd == old(ghost.fwd) + 1
+//@   ensures [always_signals_completion] ghost.wg[addr(wg)] == old(ghost.wg[addr(wg)]) - 1
+//@   ensures [error_recorded_at_most_once] ghost.npanic == old(ghost.npanic) && ghost.ret_err == nil ==> same(err, old(err))
+
+//@ func Broadcast
+//@   prop C16
+//@   havoc
+//@   requires ghost.ccof[ival(ctx)] != nil
+//@   let n = len(ghost.ccof[ival(ctx)].client.URLs)
+//@   stable ghost.ccof[ival(ctx)].client, ghost.ccof[ival(ctx)].client.URLs
+//@   loop 1 invariant 0 <= i && i <= n && ghost.spawned == old(ghost.spawned) + i && ghost.fwd == old(ghost.fwd)
+//@   ensures [no_servers_passthrough] n == 0 ==> ghost.fwd == old(ghost.fwd) + 1 && ghost.spawned == old(ghost.spawned)
+//@   ensures [one_worker_per_server] n > 0 ==> ghost.spawned == old(ghost.spawned) + n
